@@ -35,7 +35,7 @@ func init() {
 			"fuel/depth exhaustion and allocation-size panics are discarded (the property's proviso); non-trivial = case whose outcome is not a plain arity/type error; distinct = distinct (property, argument tuple) / source",
 		Assumptions: []string{
 			"non-terminating or unboundedly recursive cases are cut by the fuel/depth guard and discarded (Wrappable.{...} recursion included)",
-			"panics whose message says the requested allocation is out of range (makeslice / Repeat / growslice) are the memory proviso, not crashes",
+			"panics whose message says the requested allocation is out of range (makeslice / Repeat / growslice) are the memory proviso, not crashes, provided the case contains a number of >= 7 digits, an exponent literal or an infinity (otherwise the size was miscomputed and the panic is a crash)",
 		},
 		Run:              run,
 		Replay:           replay,
@@ -92,6 +92,7 @@ func buildPool(c *core.Ctx, srcs []string) *poolVals {
 
 var allocRe = regexp.MustCompile(`(?i)makeslice|len out of range|cap out of range|Repeat|growslice|out of memory|allocation`)
 var digits = regexp.MustCompile(`[0-9]+`)
+var bigRe = regexp.MustCompile(`[0-9]{7,}|[0-9]e[0-9]|inf`)
 var frameRe = regexp.MustCompile(`github\.com/Syuparn/pangaea/([\w/]+)\.((?:\(\*?\w+\)\.)?\w+)`)
 
 func panicSite(stack string) string {
@@ -125,7 +126,9 @@ func newJudge(c *core.Ctx) judgeFn {
 			c.Outcome(where + ":discard")
 			return
 		case "panic":
-			if allocRe.MatchString(o.Panic) {
+			// the memory proviso covers allocations the program asks for with a huge size; the same Go panic
+			// from a case that contains no large number (a miscomputed, e.g. negative, size) is a crash
+			if allocRe.MatchString(o.Panic) && bigRe.MatchString(desc) {
 				c.Discard(1)
 				c.Counter("allocation_panics_discarded", 1)
 				c.Outcome(where + ":alloc-discard")
